@@ -59,7 +59,13 @@ def _regen_untyped(ctx):
     return True
 
 
-REGEN = {'untyped': _regen_untyped, 'registry': _regen_registry, 'xlsx': _regen_xlsx, 'profiletables': _regen_profiletables, 'gendigest': _regen_gendigest}
+def _regen_mesgdef17(ctx):
+    """the typed structs as the compiled code shows them (shared with C13)"""
+    import framework as F
+    return F.harness_regen(ctx, 'mesgdef', 'Mesgdef.lean')
+
+
+REGEN = {'mesgdef17': _regen_mesgdef17, 'untyped': _regen_untyped, 'registry': _regen_registry, 'xlsx': _regen_xlsx, 'profiletables': _regen_profiletables, 'gendigest': _regen_gendigest}
 
 
 def _extra(ctx, spec):
@@ -91,12 +97,13 @@ def _extra(ctx, spec):
 
 PROP = dict(
     level='proof',
-    regen=['xlsx', 'profiletables', 'untyped', 'gendigest'],
+    regen=['xlsx', 'profiletables', 'mesgdef17', 'untyped', 'gendigest'],
     theorems=['Fit.C17.C17_bytes', 'Fit.C17.C17_factory_eq_xlsx_partial', 'Fit.C17.C17_factory_eq_xlsx_outside_class',
               'Fit.C17.C17_KF1_witness', 'Fit.C17.C17_types_eq_xlsx_partial', 'Fit.C17.C17_KF1_witness_types',
               'Fit.C17.C17_refs_resolve', 'Fit.C17.C17_bitwidth_fit', 'Fit.C17.C17_string_roundtrip',
               'Fit.C17.C17_string_tables_cover', 'Fit.C17.C17_invalid_is_base_invalid', 'Fit.C17.C17_mesgnum_fieldnum_partial',
-              'Fit.C17.C17_profile_types', 'Fit.C17.C17_version'],
+              'Fit.C17.C17_profile_types', 'Fit.C17.C17_version', 'Fit.C17.C17_mesgdef_matches_xlsx',
+              'Fit.C17.C17_distinct_sound', 'Fit.C17.C17_sorted_eq_perm'],
     families=[dict(name='profilerows', spec=True, shrink=False)],
     extra=_extra,
     trusted_base=STD_TRUST + [
